@@ -217,7 +217,7 @@ func (f FieldValues) Parse(env envs.Environment, fields *FieldAssets, field *Fie
 	if parsedDate, xerr := types.ToXDateTimeWithTimeFill(env, asText); xerr == nil {
 		// a value is persisted with just its UTC offset, so only keep the offset of the environment's timezone now, rather
 		// than have the value behave differently (e.g. when adding days across a DST change) until it's next read back
-		native := parsedDate.Native()
+		native := parsedDate.Native().Truncate(time.Microsecond) // values are persisted with microsecond precision
 		_, offset := native.Zone()
 		asDateTime = types.NewXDateTime(native.In(time.FixedZone("", offset)))
 	}
